@@ -1246,6 +1246,7 @@ func main() {
 	switch prop {
 	case "C13":
 		streamC13(r)
+		streamC13Systematic(r.Fork("systematic"))
 	case "C14":
 		streamC14(r)
 		streamC14Held(r.Fork("held"))
@@ -1748,4 +1749,48 @@ func flipPacked(ns []*node, lv *level) []*node {
 		}
 	}
 	return out
+}
+
+// C13, systematic part: every boundary field number x every role (wire type / packed form / nested) as the
+// only requested field, two occurrences, next to an unrequested neighbour; every accessor kind, single and
+// slice, both modes, both entry points.  Nothing here depends on luck.
+func streamC13Systematic(r *hx.Rng) {
+	for ti, t := range tagPool {
+		for role := 0; role < nRoles; role++ {
+			if role == roleMixed {
+				continue
+			}
+			other := tagPool[(ti+1)%len(tagPool)]
+			lv := &level{tags: []int{t, other}, roles: map[int]int{t: role, other: roleVarint}, sub: map[int]*level{}}
+			d := &def{keys: []int{t}, sub: map[int]*def{}}
+			inner := 16
+			if role == roleNested {
+				lv.sub[t] = &level{tags: []int{inner}, roles: map[int]int{inner: roleVarint}, sub: map[int]*level{}}
+				d.sub[t] = &def{keys: []int{inner}, sub: map[int]*def{}}
+			}
+			var msg []*node
+			for len(msg) < 3 {
+				msg = nil
+				for _, n := range randMessage(r, lv) {
+					msg = append(msg, n)
+				}
+			}
+			input := encodeAll(msg)
+			var ops []aop
+			for _, kind := range kinds {
+				for _, slice := range []bool{false, true} {
+					ops = append(ops, aop{typ: 'F', path: []int{t}, kind: kind, slice: slice})
+					if role == roleNested {
+						ops = append(ops, aop{typ: 'F', path: []int{t, inner}, kind: kind, slice: slice})
+					}
+				}
+			}
+			wf := oneWT(msg, d) && len(input) > 0
+			for _, fast := range []bool{false, true} {
+				for _, entry := range []string{"dec", "fn"} {
+					lazyCase("systematic", entry, fast, d, input, ops, wf)
+				}
+			}
+		}
+	}
 }
